@@ -270,6 +270,11 @@ func maybeCopyEvent(bs Bindings) {
 
 func (loc *Location) ExecAction(ctx *Context, bs Bindings, a Action) (interface{}, error) {
 
+	// The script's environment (Env.AddFact, ...) works on "the
+	// context's location", and that is us, whatever location the
+	// context was pointed at last (a parent whose part of an
+	// inherited search failed, say).
+	ctx.SetLoc(loc)
 	Log(INFO, ctx, "core.ExecAction", "action", a)
 
 	f, err := loc.getActionFunc(ctx, bs, a)
